@@ -52,6 +52,23 @@ func init() {
 						}
 					}
 				}
+				// three versions over the combinations of the grammar's optional parts (golang: the
+				// pseudo-version forms and the ordinary pre-releases they interleave with)
+				ex := thin(phaseTemplates(eco, "quick"), 3)
+				if eco == "golang" {
+					ex = append(append([]string{}, mustTemplates("golang")[:3]...), "v{d}.{d}.{d}-{l}{l}.{d}")
+				}
+				if eco == "alpm" {
+					ex = nil // mixing versions with and without pkgrel is outside the property
+				}
+				for _, a := range ex {
+					for _, b := range ex {
+						for _, c := range ex {
+							pp := (len(a) + len(b)*3 + len(c)*7) % 5
+							out = append(out, &Config{ID: fmt.Sprintf("C07/sort3/%s/parts/%s|%s|%s/p%d", eco, a, b, c, pp), Pkg: zzhPkg, Func: "C07Sort3", Args: []ArgSpec{ArgStr(eco), ArgTmpl(a), ArgTmpl(b), ArgTmpl(c), ArgInt(int64(pp))}})
+						}
+					}
+				}
 				t2 := thin(ts, 2)
 				for _, a := range t2 {
 					for _, b := range t2 {
@@ -66,7 +83,7 @@ func init() {
 			return out
 		},
 		Bounds: func(tier string) string {
-			return "real ecosystems: lists of exactly 3 versions from 4 (quick) / 8 (thorough) grammar templates per ecosystem incl. textually different equal versions; one (quick) / all 5 (thorough) non-identity input permutations; ecosystems with an open C01 finding are excluded while that finding is open. Longer lists: the CLI's generic sort function and the real slices.SortFunc over an abstract ecosystem (version = key + text, Compare by key): every weak ordering of 1..5 (quick) / 1..7 (thorough) arguments incl. repeated texts, every 0/1 key vector of length 12 and 13 (quick; 13 takes the pdqsort path) / 12..16 (thorough), every 0/1/2 key vector up to length 10 (thorough), and lists of 33 and 64 arguments with 10 free 0/1/2 keys among fixed ones (thorough); that real ecosystems behave like the abstract one rests on C01 (total preorder) and C18 (String returns the text)"
+			return "real ecosystems: lists of exactly 3 versions from 4 (quick) / 8 (thorough) grammar templates per ecosystem incl. textually different equal versions, and from 3 part-combination templates (golang: the three pseudo-version forms and an ordinary dotted pre-release); one (quick) / all 5 (thorough) non-identity input permutations; ecosystems with an open C01 finding are excluded while that finding is open. Longer lists: the CLI's generic sort function and the real slices.SortFunc over an abstract ecosystem (version = key + text, Compare by key): every weak ordering of 1..5 (quick) / 1..7 (thorough) arguments incl. repeated texts, every 0/1 key vector of length 12 and 13 (quick; 13 takes the pdqsort path) / 12..16 (thorough), every 0/1/2 key vector up to length 10 (thorough), and lists of 33 and 64 arguments with 10 free 0/1/2 keys among fixed ones (thorough); that real ecosystems behave like the abstract one rests on C01 (total preorder) and C18 (String returns the text)"
 		},
 	})
 
